@@ -23,6 +23,9 @@ pub enum InjKind {
     Mixed { back: u8 },
     /// a group far behind the log
     Stale { behind: u32, bitfield: u32 },
+    /// the network duplicates the nth genuine ack frame travelling to this endpoint; the copy arrives
+    /// `delay_us` after the original (0 = in the same interval, right behind it)
+    DupAck { nth: u16, delay_us: u32 },
 }
 
 #[derive(Clone, Debug, Serialize, Deserialize)]
@@ -47,6 +50,7 @@ fn kind_strategy() -> impl Strategy<Value = InjKind> {
         1 => (0u32..5000, any::<u32>()).prop_map(|(ahead, bitfield)| InjKind::Unknown { ahead, bitfield: bitfield | 1 }),
         2 => (0u8..8).prop_map(|back| InjKind::Mixed { back }),
         1 => (1u32..100_000, any::<u32>()).prop_map(|(behind, bitfield)| InjKind::Stale { behind, bitfield: bitfield | 1 }),
+        5 => (prop_oneof![2 => 0u16..10, 2 => 0u16..60, 1 => 0u16..300], prop_oneof![3 => Just(0u32), 2 => 1u32..30_000, 1 => 30_000u32..2_000_000]).prop_map(|(nth, delay_us)| InjKind::DupAck { nth, delay_us }),
     ]
 }
 
@@ -92,6 +96,15 @@ struct RunOut {
 
 fn run_once(sc: &PairScenario, inj: Option<&[Injection]>) -> RunOut {
     let mut sim = SimPair::new(sc);
+    if let Some(list) = inj {
+        for i in list.iter() {
+            if let InjKind::DupAck { nth, delay_us } = &i.kind {
+                // acks travelling to endpoint e are put on the link of endpoint 1 - e
+                let e = (i.ep % 2) as usize;
+                sim.dup_acks[1 - e].push((*nth as u32, *delay_us));
+            }
+        }
+    }
     let mut obs = Observer { sent: [Vec::new(), Vec::new()], seen_wire: [0, 0], acks: [Vec::new(), Vec::new()], seen_handled: [0, 0] };
     let mut injected = 0;
     let mut recent = 0;
@@ -165,6 +178,7 @@ fn run_once(sc: &PairScenario, inj: Option<&[Injection]>) -> RunOut {
                         classes.push("mixed_known_unknown");
                         vec![AckGroup { base_id, bitfield, nonce }]
                     }
+                    InjKind::DupAck { .. } => continue,
                     InjKind::Stale { behind, bitfield } => {
                         classes.push("stale_behind");
                         vec![AckGroup { base_id: sc.dirs[e].frm_base.wrapping_sub(*behind), bitfield: *bitfield, nonce: false }]
@@ -182,6 +196,21 @@ fn run_once(sc: &PairScenario, inj: Option<&[Injection]>) -> RunOut {
             }
         }
     }
+    if let Some(list) = inj {
+        for i in list.iter() {
+            if let InjKind::DupAck { nth, delay_us } = &i.kind {
+                let e = (i.ep % 2) as usize;
+                let acks_on_link = sim.trace.wire[1 - e].iter().filter(|w| w.bytes.first() == Some(&12) && matches!(w.fate, Fate::Deliver(_))).count();
+                if (*nth as usize) < acks_on_link {
+                    injected += 1;
+                    classes.push(if *delay_us == 0 { "duplicate_ack_same_interval" } else { "duplicate_ack_delayed" });
+                    if *delay_us <= 1_000_000 {
+                        recent += 1;
+                    }
+                }
+            }
+        }
+    }
     RunOut { trace: sim.finish(), injected, recent, classes }
 }
 
@@ -194,8 +223,9 @@ impl Check for C15 {
 
     fn strategy(&self, tier: Tier) -> BoxedStrategy<Case> {
         let p = GenParams { max_ticks: tier.pick(120, 300), max_sends: 5, max_frags: 4, tail: false, modes: [1, 1, 2, 3], ..GenParams::default() };
+        let p_low = GenParams { low_bandwidth: true, max_latency_us: 40_000, ..p.clone() };
         let inj = (any::<u16>(), 0u8..2, kind_strategy()).prop_map(|(after_tick, ep, kind)| Injection { after_tick, ep, kind });
-        (scenario_strategy(&p), proptest::collection::vec(inj, 1..tier.pick(12, 40))).prop_map(|(sc, inj)| Case { sc, inj }).boxed()
+        (prop_oneof![1 => scenario_strategy(&p), 1 => scenario_strategy(&p_low)], proptest::collection::vec(inj, 1..tier.pick(12, 40))).prop_map(|(sc, inj)| Case { sc, inj }).boxed()
     }
 
     fn cases(&self, tier: Tier) -> u64 {
@@ -203,7 +233,7 @@ impl Check for C15 {
     }
 
     fn rule(&self) -> String {
-        "case = SimPair scenario + list of injections; the scenario is run twice with identical clock and nonce streams, the second time additionally handing the senders, between ticks, ack frames that must be inert: genuine earlier ack groups replayed (any age), groups over really-sent frames with the nonce inverted, groups ahead of / far behind the frame log, groups mixing sent and never-sent ids; every injected frame carries the window bases of the latest genuine ack that endpoint handled, so it cannot move a window. Oracle: both runs emit byte-identical frames at identical virtual times and report identical rtt_s(), allowed rate, is_send_pending(), send_buffer_size() and queue lengths at every snapshot, and deliver identically. Non-trivial = at least one injected group referred to a frame sent within the last virtual second. Distinct = distinct serialised case.".into()
+        "case = SimPair scenario + list of injections; the scenario is run twice with identical clock and nonce streams, the second time additionally handing the senders, between ticks, ack frames that must be inert: genuine earlier ack groups replayed (any age), groups over really-sent frames with the nonce inverted, groups ahead of / far behind the frame log, groups mixing sent and never-sent ids, and network duplicates of genuine ack frames arriving right behind the original (same step interval) or up to 2 s later; every forged frame carries the window bases of the latest genuine ack that endpoint handled, so it cannot move a window. Oracle: both runs emit byte-identical frames at identical virtual times and report identical rtt_s(), allowed rate, is_send_pending(), send_buffer_size() and queue lengths at every snapshot, and deliver identically. Non-trivial = at least one injected group referred to a frame sent within the last virtual second. Distinct = distinct serialised case.".into()
     }
 
     fn assumptions(&self) -> Vec<String> {
